@@ -170,15 +170,20 @@ def mLoop (sn : Snap) : List MRep → List (List Val) → List (List Val) × Opt
   | _, cols => (cols, none)
 
 /-- in-place reorderings of `model.agents`: `shuffle(inplace=True)` with the permutation the random source
-    happens to draw (`rev` = reversed, `rot` = first to the end; any permutation is a product of such draws)
-    and `sort(key, ascending, inplace=True)` = Python's stable `sorted(..., reverse=not ascending)` by
+    happens to draw (`perm p`: the agent at position `p[j]` goes to position `j`, for any permutation `p` of the
+    positions — every order a shuffle can produce; a `p` that is not a permutation of the positions is not a draw and
+    leaves the order alone; `rev` = reversed, `rot` = first to the end are two such draws with names) and `sort(key, ascending, inplace=True)` = Python's stable `sorted(..., reverse=not ascending)` by
     `unique_id` or by an int-valued key read off attribute `a` -/
 inductive ReKind where
   | rev
   | rot
   | byId (asc : Bool)
   | byAttr (a : Nat) (asc : Bool)
+  | perm (p : List Nat)
 deriving Repr, DecidableEq
+
+/-- `p` lists every position of a list of length `n` once -/
+def isPermOfRange (p : List Nat) (n : Nat) : Bool := p.isPerm (List.range n)
 
 /-- the sort key `byAttr a` uses: the attribute if it is an int, else 0 -/
 def intKey (a : Nat) (ag : AgentS) : Int :=
@@ -205,6 +210,7 @@ def reorderList : ReKind → List AgentS → List AgentS
   | .rot, l => l.drop 1 ++ l.take 1
   | .byId asc, l => sortBy (fun ag => (ag.id : Int)) asc l
   | .byAttr a asc, l => sortBy (intKey a) asc l
+  | .perm p, l => if isPermOfRange p l.length then p.filterMap (l[·]?) else l
 
 /-- `model.agents_by_type[T]` is an AgentSet of its own: it keeps the order in which the agents were created
     (= ascending `unique_id`) whatever is done to `model.agents` -/
